@@ -4,6 +4,18 @@ EXTENDS Integers, Sequences
 KF_C13(o, why) == "NEW"
 KF_C14(o, r, why) == "NEW"
 KF_C02(o) == "NEW"
-KF_C04Attr(o, missing) == "NEW"
-KF_Compile(o) == "NEW"
+(* C04-structural-nodes-own-no-instruction: read literally, "every value and operator node is attributed at least one
+   emitted instruction" fails for two kinds of node that emit nothing by construction although nothing is ignored: an
+   ElseJump node (its effect is the jump wiring; the joining JumpTo carries no metadata) and a List / CommaList node
+   flattened into a parent of the same kind (`1 1 1`: one MakeList 3 owned by the outer node).
+   C04-side-effect-blocks: the parser splices a side-effect block next to its neighbour and re-parents it afterwards;
+   for blocks in several positions (`( [ ] )`, after a suffix operator, before a value) the result has a parent that does
+   not list the block as child, and the block or its neighbour owns no instruction.  Matcher: a tree / attribution
+   failure of a program that contains a SideEffect node. *)
+HasSideEffect(o) == \E i \in DOMAIN o.nodes : o.nodes[i].d = "SideEffect"
+Structural(o, i) == LET n == o.nodes[i + 1] IN
+                    n.d = "ElseJump" \/ (n.d \in {"List", "CommaList"} /\ n.p >= 0 /\ n.p < Len(o.nodes) /\ o.nodes[n.p + 1].d = n.d)
+KF_C04Attr(o, missing) == IF \A i \in missing : Structural(o, i) THEN "C04-structural-nodes-own-no-instruction"
+                          ELSE IF HasSideEffect(o) THEN "C04-side-effect-blocks" ELSE "NEW"
+KF_Compile(o) == IF "nodes" \in DOMAIN o /\ HasSideEffect(o) THEN "C04-side-effect-blocks" ELSE "NEW"
 ==============================================================================
